@@ -102,7 +102,40 @@ def build_origin(o, ty):
     if how == "other-format":
         G = build_origin(o["of"], ty)
         return read_text(write_text(G, ty, o["fmt"]), ty, o["fmt"])
+    if how == "modified":
+        G = build_origin(o["of"], ty)
+        _code_random.seed(o.get("rseed", 0))
+        apply_inplace(G, o["ops"])
+        return G
     raise ValueError(how)
+
+
+def apply_inplace(G, ops):
+    """the in-place modifiers of the library, applied to an object by its owner (steps that the object refuses — no such
+    vertex, not enough edges, no such method for the class — are skipped: the recipe is replayed identically every time)"""
+    for op in ops:
+        try:
+            if op[0] == "upd":
+                G.update_vertex_number(G.number_of_vertices() + op[1])
+            elif op[0] == "add":
+                G.add_edge(op[1], op[2])
+            elif op[0] == "rem":
+                G.remove_edge(op[1], op[2])
+            elif op[0] == "addlast":
+                # an edge between the (op[1]+1)-th and the (op[2]+1)-th vertex counted from the LAST one
+                n = G.number_of_vertices()
+                G.add_edge(n - op[1], n - op[2])
+            elif op[0] == "split":
+                _graphs.split_random_edges(G, op[1])
+            elif op[0] == "addrand":
+                _graphs.add_random_missing_edges(G, op[1])
+            elif op[0] == "clique":
+                vs = _code_random.sample(list(G.vertices()), op[1])
+                for i, u in enumerate(vs):
+                    for v in vs[i + 1:]:
+                        G.add_edge(u, v)
+        except (ValueError, TypeError, AttributeError, IndexError, KeyError):
+            pass
 
 
 def type_of(G):
@@ -195,6 +228,20 @@ def canon(G, ty):
     return out
 
 
+def canon_members(G, ty):
+    """`canon` of the object as its MEMBERSHIP view describes it (has_edge asked for every pair of vertices) instead of
+    its edge iterator; None for a class without has_edge"""
+    if not hasattr(G, "has_edge"):
+        return None
+    if ty == "bipartite":
+        l, r = G.left_order(), G.right_order()
+        return ["bipartite", l, r, [[u, v] for u in range(1, l + 1) for v in range(1, r + 1) if G.has_edge(u, v)]]
+    n = G.number_of_vertices()
+    if ty == "simple":
+        return ["simple", n, [[u, v] for u in range(1, n + 1) for v in range(u + 1, n + 1) if G.has_edge(u, v) or G.has_edge(v, u)]]
+    return [ty, n, [[u, v] for u in range(1, n + 1) for v in range(1, n + 1) if G.has_edge(u, v)]]
+
+
 def quiet(f, *a, **k):
     """pydot prints its parse errors on stdout"""
     old = sys.stdout
@@ -237,6 +284,7 @@ def roundtrip_oracle(ty, fmt, g, name, via):
     def oracle():
         G = make_graph(ty, g)
         before = canon(G, ty)
+        members, count = canon_members(G, ty), G.number_of_edges()
         if g.get("origin") is not None and _deep(before) != _deep(canon_g(ty, g)):
             return {"roundtrip": "the object is not the graph it was when the case was generated", "object": before,
                     "generated": canon_g(ty, g), "origin": g["origin"]}
@@ -269,6 +317,14 @@ def roundtrip_oracle(ty, fmt, g, name, via):
         after = canon(H, ty)
         if before != after:
             return {"roundtrip": "graph changed", "written": before, "read_back": after, "text": text[:600]}
+        # "exactly the same edges": the object's edge SET (has_edge on every pair, number_of_edges) is as much the graph
+        # that was written as what its iterator lists — for the object written and for the object read back
+        for what, obj_members, obj_count in (("written", members, count), ("read back", canon_members(H, ty), H.number_of_edges())):
+            k = 4 if ty == "bipartite" else 3
+            if obj_members is not None and (_deep(obj_members[:k]) != _deep(after[:k]) or obj_count != len(after[k - 1])):
+                return {"roundtrip": "the file does not hold the edge set of the object " + what,
+                        "edges_by_has_edge": obj_members, "number_of_edges": obj_count, "graph_in_the_file": after,
+                        "origin": g.get("origin"), "text": text[:600]}
         return None
     return oracle
 
@@ -602,9 +658,9 @@ def touch(G, ops):
             pass
 
 
-def run_script(ty, fmt, gs, name, script):
-    """runs the script on one private file; returns (list of (step, version, canon or 'raised X') for every plain
-    read, the last object read or the exception of the last read)"""
+def run_script(ty, fmt, gs, name, script, pad=0):
+    """runs the script on one private file (every version of it `pad` bytes long, by comment lines, when pad > 0); returns
+    (list of (step, version, canon or 'raised X') for every plain read, the last object read or the exception of the last read)"""
     _counter[0] += 1
     path = os.path.join(_TMP, "r{}.{}".format(_counter[0], fmt))
     reads, last, version = [], None, None
@@ -612,7 +668,7 @@ def run_script(ty, fmt, gs, name, script):
         for i, st in enumerate(script):
             if st[0] == "write":
                 version = st[1]
-                text = write_text(make_graph(ty, gs[version]), ty, fmt, name)
+                text = common.pad_text(write_text(make_graph(ty, gs[version]), ty, fmt, name), fmt, pad)
                 with open(path, "w", encoding="utf-8", newline="") as fh:
                     fh.write(text)
             elif st[0] == "read":
@@ -637,14 +693,14 @@ def run_script(ty, fmt, gs, name, script):
     return reads, last
 
 
-def reread_oracle(ty, fmt, gs, name, script):
+def reread_oracle(ty, fmt, gs, name, script, pad=0):
     def oracle():
-        reads, _ = run_script(ty, fmt, gs, name, script)
+        reads, _ = run_script(ty, fmt, gs, name, script, pad)
         for i, version, got in reads:
             want = canon_g(ty, gs[version])
             if _deep(got) != _deep(want):
                 return {"reread": "a read of the file does not return the graph that is in the file", "step": i,
-                        "script": script, "file_holds": want, "read_returned": got, "format": fmt, "type": ty}
+                        "script": script, "file_holds": want, "read_returned": got, "format": fmt, "type": ty, "file_size": pad}
         return None
     return oracle
 
@@ -737,9 +793,10 @@ def build(suite, info):
     if suite == "reread":
         ty, fmt, gs, name, script = info["ty"], info["fmt"], info["gs"], info.get("name", "G"), info["script"]
         lastw = [st[1] for st in script if st[0] == "write"][-1]
+        pad = info.get("pad", 0)
 
         def impl():
-            _, last = run_script(ty, fmt, gs, name, script)
+            _, last = run_script(ty, fmt, gs, name, script, pad)
             if isinstance(last, Exception):
                 raise last
             return ok(view(last))
@@ -749,7 +806,8 @@ def build(suite, info):
             text = write_text(make_graph(ty, gs[lastw]), ty, fmt, name)
             r = relabel_req(ty, nx_parse(text, fmt), dot=(fmt == "dot"))
         kinds = sorted({st[0] for st in script} - {"write", "read"}) + (["rewrite"] if sum(st[0] == "write" for st in script) > 1 else [])
-        return Case(suite, r, impl, reread_oracle(ty, fmt, gs, name, script), cls="{}:{}:{}".format(fmt, ty, "+".join(kinds) or "plain"),
+        return Case(suite, r, impl, reread_oracle(ty, fmt, gs, name, script, pad),
+                    cls="{}:{}:{}{}".format(fmt, ty, "+".join(kinds) or "plain", ":padded" if pad else ""),
                     nontrivial=len(script) > 2, info=info)
     if suite == "relabel":
         ty, nodes, edges = info["ty"], info["nodes"], [tuple(e) for e in info["edges"]]
@@ -1102,6 +1160,46 @@ def gen_objects(rng, quick):
     for _ in range(4 if quick else 30):
         g, _sh = gen_graph(rng, "simple", None, rng.random() < .3)
         origins.append(({"how": "history", "n": g["n"], "edges": [list(e) for e in g["edges"]]}, "history"))
+    # ---- objects that went through the in-place modifiers.  (a) the command line's own chain: every option of the type at
+    # once, with counts that are not just 0/1 (several new vertices, several new edges); (b) the library calls an owner of
+    # the object may make, in any order, on objects of every origin collected so far
+    for ty in sorted(graph_args.constructions):
+        opts = [o for o in graph_args.options.get(ty, []) if o != "save"]
+        if not opts:
+            continue
+        for cname in sorted(graph_args.constructions[ty]):
+            for rep in range(1 if quick else 4):
+                a = spec_args(ty, cname, rng)
+                if a is None:
+                    continue
+                spec = [cname] + a
+                for o in opts:
+                    if rng.random() < .85:
+                        spec += [o] + [rng.choice([2, 2, 3, 4]) for _ in option_args(ty, o, rng)]
+                origins.append(({"how": "spec", "kind": ty, "spec": spec, "rseed": rng.randrange(10 ** 6)},
+                                "spec:{}:{}+chain".format(ty, cname)))
+    bases = [(o, label) for o, label in origins if o["how"] in ("class", "ctor", "spec", "history")]
+    for o, label in rng.sample(bases, min(len(bases), 14 if quick else 120)):
+        ops = []
+        for _k in range(rng.randint(1, 4)):
+            x = rng.random()
+            if x < .3:
+                k = rng.choice([2, 2, 3, 5])
+                ops.append(["upd", k])
+                # edges at the new vertices: between two of them, and from one of them to an old vertex
+                ops += rng.sample([["addlast", 0, 1], ["addlast", 1, 0], ["addlast", 0, k], ["addlast", k + 1, 1], ["addlast", 0, k - 1]],
+                                  rng.randint(1, 3))
+            elif x < .5:
+                ops.append(["split", rng.choice([2, 2, 3])])
+            elif x < .65:
+                ops.append(["addrand", rng.choice([1, 2, 4])])
+            elif x < .75:
+                ops.append(["clique", rng.choice([2, 3])])
+            elif x < .9:
+                ops.append(["add", rng.randint(1, 6), rng.randint(1, 6)])
+            else:
+                ops.append(["rem", rng.randint(1, 4), rng.randint(1, 6)])
+        origins.append(({"how": "modified", "of": o, "ops": ops, "rseed": rng.randrange(10 ** 6)}, "modified:" + label.split(":")[0]))
     out = []
     for o, label in origins:
         try:
@@ -1239,12 +1337,26 @@ def cases(ctx):
                               dict(ty=ty, fmt=fmt, g=g, name="large", shape="large", via=rng.choice(["stringio", "file", "from_file"]))))
                 if n == 170 and ty != "bipartite":
                     infos.append(("write", dict(ty=ty, fmt=fmt, g=g, name="large", shape="large", via="file")))
+    # ---- file size as a dimension of the character-level reads: written files padded with comment lines to the sizes
+    # common.file_sizes() finds in the current source (+ 4 KiB, 64 KiB); one size per (type, format) in the quick tier
+    rngp = common.sub_rng(seed, "C14-padded")
+    fsizes = common.file_sizes()
+    k = 0
+    for ty in TY:
+        for fmt in SUPPORTED[ty]:
+            if fmt not in INHOUSE:
+                continue
+            for size in ([fsizes[(k + seed) % len(fsizes)]] if quick else fsizes):
+                g, _sh = gen_graph(rngp, ty, rngp.choice(["path", "random", "dense"]), False)
+                text = common.pad_text(write_text(make_graph(ty, g), ty, fmt, "G"), fmt, size)
+                infos.append(("readf", dict(fmt=fmt, ty=ty, text=text, kind="padded")))
+            k += 1
     # ---- graph objects of every class / constructor / command-line construction through every writer
     rngo = common.sub_rng(seed, "C14-objects")
     vias_o = vias + ["cli", "save", "save-fmt"]
     for ty, g, label in gen_objects(rngo, quick):
         for fmt in SUPPORTED[ty]:
-            if fmt not in INHOUSE and quick and rngo.random() < .6 and not label.startswith("class:"):
+            if fmt not in INHOUSE and quick and rngo.random() < .6 and not label.startswith(("class:", "modified:")) and "+chain" not in label:
                 continue
             name = rngo.choice(NAMES[:4])
             via = rngo.choice(vias_o)
@@ -1265,7 +1377,9 @@ def cases(ctx):
         else:
             g0 = g0 if g0["n"] >= 2 else {"n": 4, "edges": [(1, 2), (3, 4)]}
             g1 = {"n": g0["n"], "edges": [e for e in g0["edges"] if rngr.random() < .5]}
-        infos.append(("reread", dict(ty=ty, fmt=fmt, gs=[g0, g1], name="G", script=gen_script(rngr, ty, 2))))
+        # file size is a dimension of its own: the same scripts over files of the sizes common.file_sizes() finds
+        pads = [0, 0, 0] + common.file_sizes()
+        infos.append(("reread", dict(ty=ty, fmt=fmt, gs=[g0, g1], name="G", script=gen_script(rngr, ty, 2), pad=pads[i % len(pads)])))
     # ---- malformed texts of the in-house formats
     reps = 1400 if quick else 20000
     for _ in range(reps):
